@@ -3,8 +3,10 @@ package main
 import (
 	"bytes"
 	"context"
+	"fmt"
 	"runtime"
 	"sort"
+	"strings"
 	"strconv"
 	"sync"
 	"sync/atomic"
@@ -27,6 +29,10 @@ type ctl struct {
 
 	// injected partition borders (nil = ask the engine)
 	splits [][]byte
+
+	// TTLs handed to the engine, one entry per committed batch ("key:ttl,key:ttl")
+	ttlLogOn bool
+	ttlLog   []string
 
 	// the next Get fails once with a transient engine error
 	getFault bool
@@ -58,6 +64,42 @@ type ctl struct {
 	// recorded every time it passes the hook gate "retry.step" (no hook inside overwrite() is needed).
 	retrySteps bool
 	retryGid   int64 // atomic
+
+	// log gates: a klog.InfoS/ErrorS line whose message contains an armed substring is a yield point for the
+	// gated client that logs it (klog calls the installed LogFilter before it formats the line, outside its own
+	// lock) - yield points between storage calls without touching the source
+	logArmed []string
+	gidCid   map[int64]string // goroutine id -> gated client id
+}
+
+// logGate is installed with klog.SetLogFilter.
+type logGate struct{ c *ctl }
+
+func (g logGate) Filter(args []interface{}) []interface{} { return args }
+func (g logGate) FilterF(format string, args []interface{}) (string, []interface{}) {
+	return format, args
+}
+func (g logGate) FilterS(msg string, kv []interface{}) (string, []interface{}) {
+	c := g.c
+	c.mu.Lock()
+	hit := false
+	for _, a := range c.logArmed {
+		if strings.Contains(msg, a) {
+			hit = true
+		}
+	}
+	cid := ""
+	var ch chan string
+	if hit && c.gated {
+		cid = c.gidCid[curGid()]
+		ch = c.clients[cid]
+	}
+	c.mu.Unlock()
+	if cid != "" && ch != nil {
+		c.arrived <- arrival{cid: cid, gate: "log"}
+		<-ch
+	}
+	return msg, kv
 }
 
 // retryCid is the pseudo client id of the retry loop's goroutine in stepped-repair mode.
@@ -113,7 +155,7 @@ func cidOf(ctx context.Context) string {
 }
 
 func newCtl() *ctl {
-	return &ctl{crashAt: -1, arrived: make(chan arrival, 1024), clients: map[string]chan string{}}
+	return &ctl{crashAt: -1, arrived: make(chan arrival, 1024), clients: map[string]chan string{}, gidCid: map[int64]string{}}
 }
 
 func (c *ctl) popFault() string {
@@ -333,17 +375,22 @@ func (w *kvWrap) DelCurrent(ctx context.Context, it storage.Iter) error {
 type batchWrap struct {
 	w   *kvWrap
 	ops []func(storage.BatchWrite)
+	// (key, ttl) of every put / put-if-absent / compare-and-swap of this batch, for `ttllog`
+	ttls []string
 }
 
 func (w *kvWrap) BeginBatchWrite() storage.BatchWrite { return &batchWrap{w: w} }
 
 func (b *batchWrap) PutIfNotExist(key, val []byte, ttl int64) {
+	b.ttls = append(b.ttls, fmt.Sprintf("%s:%d", hx(key), ttl))
 	b.ops = append(b.ops, func(i storage.BatchWrite) { i.PutIfNotExist(key, val, ttl) })
 }
 func (b *batchWrap) CAS(key, newVal, oldVal []byte, ttl int64) {
+	b.ttls = append(b.ttls, fmt.Sprintf("%s:%d", hx(key), ttl))
 	b.ops = append(b.ops, func(i storage.BatchWrite) { i.CAS(key, newVal, oldVal, ttl) })
 }
 func (b *batchWrap) Put(key, val []byte, ttl int64) {
+	b.ttls = append(b.ttls, fmt.Sprintf("%s:%d", hx(key), ttl))
 	b.ops = append(b.ops, func(i storage.BatchWrite) { i.Put(key, val, ttl) })
 }
 func (b *batchWrap) Del(key []byte) {
@@ -354,6 +401,11 @@ func (b *batchWrap) DelCurrent(it storage.Iter) {
 }
 
 func (b *batchWrap) Commit(ctx context.Context) error {
+	b.w.c.mu.Lock()
+	if b.w.c.ttlLogOn {
+		b.w.c.ttlLog = append(b.w.c.ttlLog, strings.Join(b.ttls, ","))
+	}
+	b.w.c.mu.Unlock()
 	fault := b.w.c.gate(ctx, "commit")
 	stepped := fault != "" // released by `step <cid> [f=]`: the directive is this commit's own
 	if fault == "" {
